@@ -133,6 +133,9 @@ def plan(tier, seed):
     n = 32 if tier == "quick" else 64
     tasks = [dict(op="validate", weight=10)]
     tasks += [dict(op="run", chunk=k, nchunks=n, track=True, weight=5, cpu_limit=120, compile_allowance=600) for k in range(n)]
+    # "runs to completion and returns values meeting the certificate": with a generous budget a tiny convex problem must be solved
+    # to tolerance whatever the number of unpenalised (zero-weight) features relative to p0, with and without positivity
+    tasks += [dict(op="liveness", p0=p0, fit_intercept=fi, weight=2) for p0 in (1, 2) for fi in (False, True)]
     return tasks
 
 
@@ -229,6 +232,17 @@ def run(task, ctx):
                                   where=dict(solver=SOLVER_VARIANTS[cell[0]][0], exc=et))
         ctx.sample(dict(op="validate", accepted=n_acc))
         return
+    if task["op"] == "liveness":
+        from mc.drivers import c01
+        for comp in c01.ws_live_comps(task):
+            v, res = exec_live(comp)
+            ctx.count("liveness_cells")
+            ctx.obs(res.get("w"), nontrivial=res["status"] == "ok" and bool(np.any(res["w"])))
+            for kind, got, exp in v:
+                ctx.violation("solver:AndersonCD.working_set", kind, dict(op="live", comp=comp), got, exp,
+                              where=dict(solver="AndersonCD", p0=task["p0"], positive=comp["penalty"]["positive"]))
+        ctx.sample(dict(op="liveness", p0=task["p0"], fit_intercept=task["fit_intercept"]))
+        return
     cells = accepted_cells()
     if tier == "quick":
         cells = covering(cells)
@@ -247,6 +261,24 @@ def run(task, ctx):
             ctx.violation(site_of(cell), kind, dict(op="run", cell=list(cell)), got, exp, where=where_of(cell, res))
         if idx == 0:
             ctx.sample(dict(op="run", cell=list(cell), comp={k: comp[k] for k in ("solver", "datafit", "penalty", "storage")}))
+
+
+def exec_live(comp):
+    from mc import comp as C
+    res = C.execute(comp)
+    v = []
+    if res["status"] != "ok":
+        v.append(("fails_inside_solve", res["exc"]["type"] + ": " + res["exc"]["message"][:120], "a solution"))
+    elif not np.all(np.isfinite(res["w"])):
+        v.append(("non_finite_output", res["w"].tolist(), "finite"))
+    elif not res["stop_crit"] <= 1e-8:
+        v.append(("does_not_converge_within_generous_budget", dict(stop_crit=res["stop_crit"], w=res["w"].tolist()),
+                  "stop_crit <= 1e-8 within max_iter=60 x max_epochs=5000"))
+    else:
+        viol = C.certificate(comp, res["w"])[0]
+        if viol > 1e-8 * (1 + 1e-6) + 1e-10 * 100:
+            v.append(("certificate_invalid", dict(stop_crit=res["stop_crit"], recomputed=viol), "<= 1e-8"))
+    return v, res
 
 
 def site_of(cell):
@@ -277,6 +309,9 @@ def on_abort(task, idx, status, detail, ctx):
 
 def replay(params):
     from mc import comp as C
+    if params["op"] == "live":
+        v, res = exec_live(params["comp"])
+        return dict(violated=bool(v), kinds=[x[0] for x in v], **C.pack(res))
     cell = tuple(params["cell"])
     if params["op"] == "validate":
         ok, et, msg = validate_cell(cell)
@@ -294,5 +329,7 @@ def describe(tier, agg):
             f"{{fit_intercept}} = {n} cells, all submitted to the library's validation; accepted cells are run by solve() on a 6x3 "
             "problem of the datafit's kind, each in its own checkpointed step so that a dying or non-terminating worker is attributed "
             "to its cell (quick: covering subset; thorough: all accepted cells); outcome must be an explained AttributeError/"
-            "ValueError or a finite solution passing the certificate; distinct = distinct outcomes")
+            "ValueError or a finite solution passing the certificate; plus a liveness column: the 6x5 working-set problem with every "
+            "zero-weight pattern x p0 in {1,2} x both strategies x positivity on/off must be solved to 1e-8 within max_iter=60; "
+            "distinct = distinct outcomes")
     return rule, {"cells_validated": 5000, "cells_accepted": 300, "cells_run": 60, "cells_solved": 40}
